@@ -254,6 +254,76 @@ fn run_measure(spec: &Spec) -> Result<(u64, u64, u64, u64), String> {
     Err(format!("measuring process died: {:?}; stderr {}", out.status, String::from_utf8_lossy(&out.stderr).chars().take(300).collect::<String>()))
 }
 
+/// The same bound through the tool: every streaming command of the mlar binary (production constants) on a
+/// 128 MiB (thorough 512 MiB) file and on its archive, maximum resident set size reported by /usr/bin/time.
+fn cli_points(rep: &mut Report, thorough: bool) {
+    let exe = crate::cli::mlar_path("p");
+    if !exe.exists() || !std::path::Path::new("/usr/bin/time").exists() {
+        rep.notes.push("mlar (production build) or /usr/bin/time not available: memory of the tool not measured".to_string());
+        return;
+    }
+    let scratch = crate::cli::Scratch::new("c15cli");
+    let dir = scratch.path();
+    let mib = if thorough { 512usize } else { 128 };
+    {
+        use std::io::Write;
+        let Ok(mut f) = std::fs::File::create(dir.join("big.bin")) else { return };
+        let mut src = GenReader { file: 0, pos: 0, end: (mib * MIB) as u64, e: Entropy::Noise };
+        if std::io::copy(&mut src, &mut f).is_err() || f.flush().is_err() {
+            return;
+        }
+    }
+    let e = exe.to_string_lossy().to_string();
+    let run = |what: &str, shell: String| -> Option<(bool, u64)> {
+        let o = std::process::Command::new("sh").arg("-c").arg(&shell).current_dir(dir).output().ok()?;
+        let err = String::from_utf8_lossy(&o.stderr).to_string();
+        let rss = err.lines().rev().find_map(|l| l.strip_prefix("MAXRSS ")).and_then(|x| x.trim().parse::<u64>().ok())?;
+        let _ = what;
+        Some((o.status.success(), rss * 1024))
+    };
+    let t = "/usr/bin/time -f 'MAXRSS %M'";
+    let cmds: Vec<(&str, String, bool)> = vec![
+        ("keygen", format!("{t} {e} keygen key"), true),
+        ("create (no layer) from a file", format!("{t} {e} create -l -o /dev/null big.bin"), true),
+        ("create (default layers) from a file", format!("{t} {e} create -o a.mla -p key.pub big.bin"), true),
+        // a source that announces no size (a pipe): whatever the tool does with it, it must not buffer it
+        ("create from a pipe", format!("head -c {} /dev/zero | {t} {e} create -l -o /dev/null /dev/stdin", mib * MIB), false),
+        ("list -vv", format!("{t} {e} list -vv -i a.mla -k key"), true),
+        ("cat", format!("{t} {e} cat -i a.mla -k key -o /dev/null big.bin"), true),
+        ("extract (linear)", format!("{t} {e} extract -i a.mla -k key -o out1"), true),
+        ("extract (one name)", format!("{t} {e} extract -i a.mla -k key -o out2 big.bin"), true),
+        ("to-tar", format!("{t} {e} to-tar -i a.mla -k key -o /dev/null"), true),
+        ("convert", format!("{t} {e} convert -i a.mla -k key -l -o /dev/null"), true),
+        ("repair", format!("{t} {e} repair -i a.mla -k key -l -o /dev/null"), true),
+        ("repair of the archive cut at 3/4", format!("head -c $(( $(stat -c %s a.mla) / 4 * 3 )) a.mla > cut.mla; {t} {e} repair -i cut.mla -k key -l -o /dev/null"), true),
+    ];
+    let ceiling = 48 * MIB as u64;
+    for (what, shell, must_succeed) in cmds {
+        rep.evaluations += 1;
+        rep.transitions += 1;
+        let h = fnv(format!("cli{what}").as_bytes());
+        rep.state(h);
+        rep.nontrivial(h);
+        rep.class("mlar");
+        match run(what, shell.clone()) {
+            None => rep.notes.push(format!("mlar {what}: no measurement ({shell})")),
+            Some((ok, rss)) => {
+                rep.count(&format!("max_rss_bytes/mlar {what}/{mib}MiB"), rss);
+                if must_succeed && !ok {
+                    rep.violate(Violation { sig: json!({"kind": "operation_failed_or_died", "operation": format!("mlar {what}")}), detail: format!("`{shell}` failed"), replay: json!({"cli": what}), weight: mib as u64 });
+                } else if rss > ceiling {
+                    rep.violate(Violation {
+                        sig: json!({"kind": "peak_above_ceiling", "operation": format!("mlar {what}")}),
+                        detail: format!("`{shell}`: maximum resident set size {rss} bytes for {mib} MiB of data (ceiling {ceiling}; about 20 MB are normal)"),
+                        replay: json!({"cli": what}),
+                        weight: mib as u64,
+                    });
+                }
+            }
+        }
+    }
+}
+
 pub fn run(started: Instant) -> i32 {
     if let Some(part) = infra::ctx().part.clone() {
         if let Some(spec) = Spec::parse(&part) {
@@ -373,11 +443,12 @@ pub fn run(started: Instant) -> i32 {
     for (spec, r) in results.iter().take(4) {
         rep.sample(json!({"case": spec.json(), "result": format!("{r:?}")}));
     }
+    cli_points(&mut rep, thorough);
     infra::finish(
         rep,
         Meta {
             level: "exploration",
-            rule: "production-constant build; for each operation {write from a generator to a counting sink (add_file / interleaved appends / io::copy into StreamWriter / a source that ends after 1 MiB of the announced size: the call must fail without allocating in proportion to what is missing), repair of the intact archive and of the archive cut at 3/4, linear extraction of all files and of every other file (none of a single-file archive: the skip path), per-file read} x 4 layer combinations x {1 file, 64 files interleaved in 4 KiB pieces} x size ladder, one process per point with a counting global allocator: peak live heap above the level at the start of the operation must stay under 64 MiB + 512 B x (files + runs), everything must actually stream through, and the peak must not grow between 16 MiB, 64 MiB (and 256 MiB, 1 GiB in thorough) beyond 5 % + 1 MiB + the index growth. The archive bytes read by repair/extract are held outside the measured interval".to_string(),
+            rule: "production-constant build; for each operation {write from a generator to a counting sink (add_file / interleaved appends / io::copy into StreamWriter / a source that ends after 1 MiB of the announced size: the call must fail without allocating in proportion to what is missing), repair of the intact archive and of the archive cut at 3/4, linear extraction of all files and of every other file (none of a single-file archive: the skip path), per-file read} x 4 layer combinations x {1 file, 64 files interleaved in 4 KiB pieces} x size ladder, one process per point with a counting global allocator: peak live heap above the level at the start of the operation must stay under 64 MiB + 512 B x (files + runs), everything must actually stream through, and the peak must not grow between 16 MiB, 64 MiB (and 256 MiB, 1 GiB in thorough) beyond 5 % + 1 MiB + the index growth. The archive bytes read by repair/extract are held outside the measured interval. The streaming commands of the mlar binary (keygen, create from a file and from a pipe, list -vv, cat, both forms of extract, to-tar, convert, repair of the intact and of a cut archive) are run on 128 MiB (thorough 512 MiB) under /usr/bin/time: maximum resident set size under 48 MiB".to_string(),
             exhaustive: false,
             bounds: json!({"size_ladder_mib": sizes, "points": specs.len(), "note": "the size dimension is a ladder, a bound - not 'all sizes'"}),
             assumptions: vec!["noise/pattern contents, brotli level 1".to_string()],
